@@ -226,6 +226,9 @@ func (p *Prog) compilerBoundsList(goCmd string) ([]bceSite, error) {
 	return sites, nil
 }
 
+// secondToolchain: name of a second go command whose bounds-check list is also consulted (thorough tier).
+var secondToolchain string
+
 type panicAudit struct {
 	p *Prog
 	r *Result
@@ -316,6 +319,16 @@ func rulePanic(p *Prog, r *Result) {
 	if err != nil {
 		r.Undecided("C08.panic", "compiler bounds list", "", err.Error())
 		return
+	}
+	if secondToolchain != "" {
+		// thorough tier: the second installed toolchain's prove pass as an independent list
+		more, err2 := p.compilerBoundsList(secondToolchain)
+		if err2 != nil {
+			r.Undecided("C08.panic", "compiler bounds list ("+secondToolchain+")", "", err2.Error())
+			return
+		}
+		r.Count("bounds_sites_second_toolchain", len(more))
+		sites = append(sites, more...)
 	}
 	nUnproven := 0
 	seenSite := map[string]bool{}
@@ -630,6 +643,10 @@ func (a *panicAudit) boundsSafe(fn *ssa.Function, in ssa.Instruction) (bool, str
 	// (4) loop condition idx+k < len(base) with a non-negative induction variable
 	if !isSlice {
 		if ok, why := a.loopBound(fn, in.Block(), base, idx); ok {
+			return true, why
+		}
+		// (4b) descending loop: i = len(base)-1; i >= 0; i--
+		if ok, why := a.descendingLoop(fn, in.Block(), base, idx); ok {
 			return true, why
 		}
 		// (5) parallel slices
@@ -1010,3 +1027,53 @@ func literalLen(s *ssa.Slice) (int64, bool) {
 }
 
 var _ = sort.Strings
+
+// descendingLoop: idx is phi(len(base)-1, phi-1) and the access is dominated by the true branch of phi >= 0.
+func (a *panicAudit) descendingLoop(fn *ssa.Function, at *ssa.BasicBlock, base, idx ssa.Value) (bool, string) {
+	phi, ok := idx.(*ssa.Phi)
+	if !ok || len(phi.Edges) != 2 {
+		return false, ""
+	}
+	bp := accessPath(base)
+	okInit, okStep := false, false
+	for _, e := range phi.Edges {
+		bo, ok := e.(*ssa.BinOp)
+		if !ok || bo.Op != token.SUB {
+			return false, ""
+		}
+		c, isC := constInt(bo.Y)
+		if !isC || c != 1 {
+			return false, ""
+		}
+		if bo.X == ssa.Value(phi) {
+			okStep = true
+			continue
+		}
+		if lc, ok := bo.X.(*ssa.Call); ok {
+			if bi, ok := lc.Common().Value.(*ssa.Builtin); ok && bi.Name() == "len" && accessPath(lc.Common().Args[0]) == bp && bp != "" {
+				okInit = true
+			}
+		}
+	}
+	if !okInit || !okStep {
+		return false, ""
+	}
+	for _, b := range fn.Blocks {
+		iff, ok := b.Instrs[len(b.Instrs)-1].(*ssa.If)
+		if !ok || !b.Dominates(at) {
+			continue
+		}
+		bo, ok := iff.Cond.(*ssa.BinOp)
+		if !ok || bo.X != ssa.Value(phi) {
+			continue
+		}
+		c, isC := constInt(bo.Y)
+		if !isC {
+			continue
+		}
+		if (bo.Op == token.GEQ && c == 0 || bo.Op == token.GTR && c == -1) && b.Succs[0].Dominates(at) {
+			return true, "descending loop from len-1 while i >= 0"
+		}
+	}
+	return false, ""
+}
